@@ -102,6 +102,35 @@ CHECKS: dict[str, tuple[str, str, str, str, str]] = {
         "and the bytecode library's block splitting.",
         "5/C06",
     ),
+    "C07": (
+        "model_checking",
+        "explicit-state BFS over the real _GoalsManager / CoverageArchive with scripted real chromosomes",
+        "For every progen module (size <= 2 plus 52 seeds quick; size <= 3 plus static seeds thorough) x {no "
+        "exclusion, one marker on any line, single-name only_cover / no_cover} the goal graph is built exactly as "
+        "DynaMOSA builds it, and all reachable (covered, current) states are explored for builds with <= 6 "
+        "predicates and <= 13 goals (first/last chains otherwise). Checked on every transition: the covered set "
+        "grows, current and covered are disjoint, a goal whose CDG dependencies are covered is current or covered, "
+        "every terminal state covers the whole pool, every control dependency resolves to a registered "
+        "predicate, and building never raises.",
+        "Coverage verdicts are scripted (C10 decides real ones); dependencies are read from the registered CDG "
+        "(C06 decides that); states are restored by re-assigning the four mutable containers and cross-checked by "
+        "fresh replay of every terminal state; only single-goal steps plus one cover-everything update are explored.",
+        "5/C07",
+    ),
+    "C08": (
+        "exploration",
+        "bounded-exhaustive marker/flag/scope-list enumeration through the real import hook against an "
+        "independent documented-semantics region oracle (differential)",
+        "For 18 hand-written modules plus every progen module (size <= 2 quick; <= 3 thorough), every placement of "
+        "<= 1 (quick) or <= 2 (thorough) exclusion markers on any line x 4 flag combinations x every (only_cover, "
+        "no_cover) pair over <= 3 scope names, plus double-hook ignore_methods scenarios. Checked: no line, "
+        "predicate or branch-less code-object goal inside excluded code; every baseline line goal outside excluded "
+        "code is kept; conflicting lists raise ValueError; violations are attributed to the minimal configuration.",
+        "The oracle is written from docs/user/coverage.rst and the AstInfo docstrings, with lenient (either answer "
+        "accepted) readings where they leave latitude (listed in mc/exclusions.py); executable := line goal of the "
+        "marker-free baseline; the corpus has no multi-line statements; CPython 3.12.",
+        "5/C08",
+    ),
     "C09": (
         "exploration",
         "exhaustive program enumeration, independent dynamic-dependence interpreter, sys.settrace ground truth",
